@@ -27,7 +27,7 @@ ASSUMPTIONS = ["the harness waits 3 s for the number of requests the model expec
                "hide a difference"]
 
 KINDS = ["none", "cl1", "cl1023", "cl1024", "cl1025", "cl5000", "chunked", "expect5", "none", "cl1024", "cl5000close",
-         "cl0", "cl0", "v10ka", "v10ka", "cl7close", "conn2up"]
+         "cl0", "cl0", "v10ka", "v10ka", "cl7close", "conn2up", "cl70000", "cl140000"]
 
 
 def mk(rng, kind, tag):
@@ -53,7 +53,7 @@ def mk(rng, kind, tag):
         # HTTP/1.0 with keep-alive in any letter case and a small (pre-buffered) or empty body: the connection goes on
         n = rng.choice([0, 1, 100, 1024])
         r = AReq(method="POST", target="/" + tag, version="1.0", headers=[("Host", "h")], framing="cl", body=body_bytes(tag, n),
-                 conn=rng.choice(["keep-alive", "Keep-Alive", "KEEP-ALIVE", "Keep-Alive, x"]))
+                 conn=rng.choice(["keep-alive", "Keep-Alive", "KEEP-ALIVE", "Keep-Alive, x", "TE, Keep-Alive", "x,keep-alive", "x , Keep-Alive , y"]))
         return r, False
     if kind.startswith("cl"):
         n = int(kind[2:])
